@@ -205,3 +205,100 @@ Proof. vm_compute. repeat split; auto. Qed.
 (* ... while with an unrelated key x of depth one in place of x.y the package between is visited and a is a package *)
 Example layout_between_example : lookup_pkg (layout [[1]; [1; 2; 3]; [4]]) [1] = Some true.
 Proof. vm_compute. reflexivity. Qed.
+
+(* ---------------------------------------------------------------------------------------------
+   On child-closed key sets the generator's layout is the idealised rule "package iff some key lies below" *)
+
+Lemma is_prefix_refl : forall a, is_prefix a a = true.
+Proof. induction a as [|x a IH]; cbn; [reflexivity|]. rewrite N.eqb_refl. exact IH. Qed.
+
+Lemma is_prefix_trans : forall a b c, is_prefix a b = true -> is_prefix b c = true -> is_prefix a c = true.
+Proof.
+  induction a as [|x a IH]; intros b c H1 H2; [reflexivity|].
+  destruct b as [|y b]; [discriminate|]. destruct c as [|z c]; [discriminate|]. cbn in *.
+  apply andb_true_iff in H1. destruct H1 as [E1 P1]. apply andb_true_iff in H2. destruct H2 as [E2 P2].
+  apply N.eqb_eq in E1. apply N.eqb_eq in E2. subst. rewrite N.eqb_refl. cbn. eapply IH; eassumption.
+Qed.
+
+Lemma is_prefix_len : forall a b, is_prefix a b = true -> (length a <= length b)%nat.
+Proof.
+  induction a as [|x a IH]; intros b H; cbn; [lia|]. destruct b as [|y b]; [discriminate|]. cbn in *.
+  apply andb_true_iff in H. destruct H as [_ H]. apply IH in H. lia.
+Qed.
+
+Lemma is_prefix_firstn : forall k p, is_prefix (firstn k p) p = true.
+Proof.
+  induction k as [|k IH]; intro p; [reflexivity|]. destruct p as [|x p]; [reflexivity|]. cbn. rewrite N.eqb_refl. apply IH.
+Qed.
+
+Lemma is_prefix_removelast : forall x, is_prefix (removelast x) x = true.
+Proof.
+  induction x as [|a x IH]; [reflexivity|]. destruct x as [|b x]; [reflexivity|].
+  change (removelast (a :: b :: x)) with (a :: removelast (b :: x)). cbn [is_prefix]. rewrite N.eqb_refl. exact IH.
+Qed.
+
+Lemma between__prefix : forall prev k lo x, In x (between_ prev k lo) -> is_prefix x prev = true.
+Proof.
+  intros prev k lo. induction k as [|k IH]; intros x H; cbn [between_] in H; [contradiction|].
+  destruct (lo <? S k)%nat; [|contradiction]. destruct H as [H|H]; [subst; apply is_prefix_firstn | apply IH; exact H].
+Qed.
+
+Lemma between_prefix : forall prev cur x, In x (between prev cur) -> is_prefix x prev = true /\ prev <> [].
+Proof.
+  intros prev cur x H. unfold between in H. destruct (1 <? length prev - length cur)%nat eqn:E; [|contradiction].
+  split; [eapply between__prefix; exact H|]. intro Hp. subst. cbn in E. discriminate.
+Qed.
+
+Lemma visited_prefix : forall (M : list path) l prev x, (prev = [] \/ In prev M) -> (forall y, In y l -> In y M) ->
+  In x (lay_visit prev l) -> exists p, In p M /\ is_prefix x p = true.
+Proof.
+  intros M l. induction l as [|m l IH]; intros prev x Hprev Hl H; [contradiction|]. cbn in H.
+  apply in_app_or in H. destruct H as [H|[H|H]].
+  - apply between_prefix in H. destruct H as [H Hne]. destruct Hprev as [Hprev|Hprev]; [congruence|]. exists prev. split; assumption.
+  - subst. exists x. split; [apply Hl; left; reflexivity | apply is_prefix_refl].
+  - apply (IH m x); [right; apply Hl; left; reflexivity | intros y Hy; apply Hl; right; exact Hy | exact H].
+Qed.
+
+Lemma registered_cons : forall reg p m, lay_registered (p :: reg) m = path_eqb m p || lay_registered reg m.
+Proof. reflexivity. Qed.
+
+Lemma lookup_unregistered : forall m vs reg, m <> [] -> (forall x, In x vs -> x <> [] -> lay_parent x <> m) ->
+  lay_registered reg m = false -> In m vs -> lookup_pkg (lay_assign reg vs) m = Some false.
+Proof.
+  intros m vs. induction vs as [|x vs IH]; intros reg Hm Hpar Hreg Hin; [contradiction|].
+  destruct x as [|a x]; cbn [lay_assign lookup_pkg].
+  - destruct m as [|b m]; [congruence|]. cbn [path_eqb]. apply IH; [congruence | intros y Hy; apply Hpar; right; exact Hy | exact Hreg |].
+    destruct Hin as [Hin|Hin]; [discriminate | exact Hin].
+  - assert (lay_registered (lay_parent (a :: x) :: reg) m = false) as Hreg'.
+    { rewrite registered_cons, Hreg, orb_false_r. destruct (path_eqb m (lay_parent (a :: x))) eqn:E; [|reflexivity].
+      apply path_eqb_eq in E. exfalso. apply (Hpar (a :: x)); [left; reflexivity | discriminate | congruence]. }
+    destruct (path_eqb (a :: x) m) eqn:E.
+    + apply path_eqb_eq in E. rewrite E. rewrite E in Hreg'. rewrite Hreg'. reflexivity.
+    + apply IH; [exact Hm | intros y Hy; apply Hpar; right; exact Hy | exact Hreg' |].
+      destruct Hin as [Hin|Hin]; [|exact Hin]. rewrite Hin in E. assert (path_eqb m m = true) as X by (apply path_eqb_eq; reflexivity). congruence.
+Qed.
+
+(* a key with no key strictly below it is written as a plain module file, for every key set *)
+Theorem leaf_is_module : forall M m, In m M -> m <> [] -> existsb (strict_prefix m) M = false ->
+  lookup_pkg (layout M) m = Some false.
+Proof.
+  intros M m Hm Hne Hleaf. unfold layout. apply lookup_unregistered; [exact Hne | | reflexivity | apply visit_In; apply order_In; exact Hm].
+  intros x Hx Hxne Hpar.
+  destruct (visited_prefix M (process_order M) [] x (or_introl eq_refl)) as [p [Hp Hpre]]; [intros y Hy; apply order_In; exact Hy | exact Hx |].
+  assert (strict_prefix m p = true) as S.
+  { unfold strict_prefix. apply andb_true_iff. split.
+    - eapply is_prefix_trans; [|exact Hpre]. rewrite <- Hpar. apply is_prefix_removelast.
+    - apply negb_true_iff. apply path_eqb_len. pose proof (parent_len x Hxne) as L. rewrite Hpar in L. apply is_prefix_len in Hpre. lia. }
+  assert (existsb (strict_prefix m) M = true) as X by (apply existsb_exists; exists p; split; assumption). congruence.
+Qed.
+
+(* on child-closed key sets the layout is exactly the idealised rule of Relative.is_init *)
+Theorem layout_is_init : forall M m, child_closed M -> In m M -> m <> [] -> lookup_pkg (layout M) m = Some (is_init M m).
+Proof.
+  intros M m HC Hm Hne. unfold is_init. destruct m as [|a m0]; [congruence|].
+  destruct (existsb (strict_prefix (a :: m0)) M) eqn:E.
+  - apply existsb_exists in E. destruct E as [m' [Hm' Hp]].
+    destruct (HC (a :: m0) m' Hm Hm' Hne Hp) as [c [Hc [Hcne Hpar]]].
+    eapply child_makes_package; eassumption.
+  - apply leaf_is_module; assumption.
+Qed.
